@@ -1,6 +1,6 @@
 /-
   Invariants of the GarbageCollector model (property C10), part 5: bookkeeping used by the
-  termination argument — who owns an unpublished cell, and that there is at most one stop marker.
+  termination argument — who owns an unpublished cell.
 -/
 import Babylon.GC.LemmasAll
 
@@ -10,29 +10,12 @@ open Babylon.Core Babylon.Gen.GC
 structure MInv (s : State) : Prop where
   unpubTask : ∀ i id e, s.cells[i]? = some (.task ⟨id, e⟩, false) → s.calls id = .publish e (s.popIdx + i)
   unpubMark : ∀ i, s.cells[i]? = some (.marker, false) → s.stop = .publish (s.popIdx + i)
-  noMark : (s.stop = .idle ∨ s.stop = .reserve) → Item.marker ∉ s.allItems
-  markIn : (s.stop = .join ∨ s.stop = .returned) → Item.marker ∈ s.allItems
-  oneMark : ∀ i j : Nat, s.allItems[i]? = some .marker → s.allItems[j]? = some .marker → i = j
 
 theorem MInv.init : MInv State.init := by
-  constructor <;> simp [State.init, State.allItems]
+  constructor <;> simp [State.init]
 
-theorem getElem?_append_singleton {α : Type} (l : List α) (x : α) (k : Nat) :
-    (l ++ [x])[k]? = if k < l.length then l[k]? else if k = l.length then some x else none := by
-  split
-  · rename_i h; exact List.getElem?_append_left h
-  · rename_i h
-    rw [List.getElem?_append_right (by omega)]
-    split
-    · rename_i h2; subst h2; simp
-    · rename_i h2
-      have : k - l.length ≠ 0 := by omega
-      obtain ⟨m, hm⟩ := Nat.exists_eq_succ_of_ne_zero this
-      rw [hm]; simp
-
-theorem MInv.popCells {c : Cfg} {s : State} (hq : QInv c s) (hm : MInv s) {n lim : Nat}
-    (hp : canPop s n lim = true) (pc : CPc) : MInv { popCells s n with cpc := pc } := by
-  refine ⟨?_, ?_, ?_, ?_, ?_⟩
+theorem MInv.popCells {s : State} (hm : MInv s) (n : Nat) (pc : CPc) : MInv { popCells s n with cpc := pc } := by
+  refine ⟨?_, ?_⟩
   · intro i id e hi
     simp only [GC.popCells, List.getElem?_drop] at hi
     have := hm.unpubTask (n + i) id e hi
@@ -41,9 +24,6 @@ theorem MInv.popCells {c : Cfg} {s : State} (hq : QInv c s) (hm : MInv s) {n lim
     simp only [GC.popCells, List.getElem?_drop] at hi
     have := hm.unpubMark (n + i) hi
     simp only [GC.popCells]; rw [this]; congr 1; omega
-  · intro h; rw [popCells_allItems']; exact hm.noMark h
-  · intro h; rw [popCells_allItems']; exact hm.markIn h
-  · intro i j; rw [popCells_allItems']; exact hm.oneMark i j
 
 theorem MInv.step {c : Cfg} {s s' : State} {l : Lbl} (hq : QInv c s) (hm : MInv s)
     (h : step c s l = some s') : MInv s' := by
@@ -53,7 +33,7 @@ theorem MInv.step {c : Cfg} {s s' : State} {l : Lbl} (hq : QInv c s) (hm : MInv 
     split at h <;> try contradiction
     rename_i hnone
     injection h with h; subst h
-    refine ⟨?_, hm.unpubMark, hm.noMark, hm.markIn, hm.oneMark⟩
+    refine ⟨?_, hm.unpubMark⟩
     intro i j e hi
     dsimp only at hi ⊢
     have := hm.unpubTask i j e hi
@@ -65,7 +45,7 @@ theorem MInv.step {c : Cfg} {s s' : State} {l : Lbl} (hq : QInv c s) (hm : MInv 
     split at h <;> try contradiction
     rename_i hnone
     injection h with h; subst h
-    refine ⟨?_, hm.unpubMark, hm.noMark, hm.markIn, hm.oneMark⟩
+    refine ⟨?_, hm.unpubMark⟩
     intro i j e hi
     dsimp only at hi ⊢
     have := hm.unpubTask i j e hi
@@ -77,7 +57,7 @@ theorem MInv.step {c : Cfg} {s s' : State} {l : Lbl} (hq : QInv c s) (hm : MInv 
     split at h <;> try contradiction
     rename_i htick
     injection h with h; subst h
-    refine ⟨?_, hm.unpubMark, hm.noMark, hm.markIn, hm.oneMark⟩
+    refine ⟨?_, hm.unpubMark⟩
     intro i j e hi
     dsimp only at hi ⊢
     have := hm.unpubTask i j e hi
@@ -89,13 +69,7 @@ theorem MInv.step {c : Cfg} {s s' : State} {l : Lbl} (hq : QInv c s) (hm : MInv 
     split at h <;> try contradiction
     rename_i e0 hres
     injection h with h; subst h
-    have hlen := allItems_length hq
-    have hall : ∀ k : Nat, (s.popped ++ (s.cells ++ [(Item.task ⟨id, e0⟩, false)]).map (·.1))[k]? = some Item.marker →
-        s.allItems[k]? = some Item.marker := by
-      intro km hkm
-      simp only [List.map_append, List.map_cons, List.map_nil, ← List.append_assoc] at hkm
-      exact getElem?_append_singleton_ne (by simp) hkm
-    refine ⟨?_, ?_, ?_, ?_, ?_⟩
+    refine ⟨?_, ?_⟩
     · intro i j e hi
       dsimp only at hi ⊢
       rw [getElem?_append_singleton] at hi
@@ -119,19 +93,6 @@ theorem MInv.step {c : Cfg} {s s' : State} {l : Lbl} (hq : QInv c s) (hm : MInv 
       · split at hi
         · injection hi with hi; injection hi with hi _; cases hi
         · cases hi
-    · intro hs hmem
-      apply hm.noMark hs
-      obtain ⟨k, hk⟩ := List.getElem?_of_mem hmem
-      exact List.mem_of_getElem? (hall k hk)
-    · intro hs
-      have := hm.markIn hs
-      show Item.marker ∈ s.popped ++ (s.cells ++ [(Item.task ⟨id, e0⟩, false)]).map (·.1)
-      simp only [State.allItems, List.mem_append, List.map_append] at this ⊢
-      rcases this with h | h
-      · exact Or.inl h
-      · exact Or.inr (Or.inl h)
-    · intro i j hi hj
-      exact hm.oneMark i j (hall i hi) (hall j hj)
   | publish id =>
     simp only [GC.step, stepWith] at h
     split at h <;> try contradiction
@@ -139,9 +100,7 @@ theorem MInv.step {c : Cfg} {s s' : State} {l : Lbl} (hq : QInv c s) (hm : MInv 
     split at h <;> try contradiction
     rename_i hroom
     injection h with h; subst h
-    have e : s.popped ++ (setPublished s.cells (k0 - s.popIdx)).map (·.1) = s.allItems := by
-      simp [State.allItems, map_fst_setPublished]
-    refine ⟨?_, ?_, ?_, ?_, ?_⟩
+    refine ⟨?_, ?_⟩
     · intro i j e' hi
       dsimp only at hi ⊢
       rw [getElem?_setPublished] at hi
@@ -172,46 +131,21 @@ theorem MInv.step {c : Cfg} {s s' : State} {l : Lbl} (hq : QInv c s) (hm : MInv 
         split at hi
         · injection hi with _ h2; cases h2
         · subst hi; exact hm.unpubMark i hc
-    · intro hs
-      show Item.marker ∉ s.popped ++ (setPublished s.cells (k0 - s.popIdx)).map (·.1)
-      rw [e]; exact hm.noMark hs
-    · intro hs
-      show Item.marker ∈ s.popped ++ (setPublished s.cells (k0 - s.popIdx)).map (·.1)
-      rw [e]; exact hm.markIn hs
-    · intro i j
-      show (s.popped ++ (setPublished s.cells (k0 - s.popIdx)).map (·.1))[i]? = _ →
-        (s.popped ++ (setPublished s.cells (k0 - s.popIdx)).map (·.1))[j]? = _ → _
-      rw [e]; exact hm.oneMark i j
   | callStop =>
     simp only [GC.step, stepWith] at h
     split at h <;> try contradiction
-    rename_i hidle
+    rename_i hg
     injection h with h; subst h
-    refine ⟨hm.unpubTask, ?_, ?_, ?_, hm.oneMark⟩
-    · intro i hi
-      have := hm.unpubMark i hi
-      rw [hidle] at this; cases this
-    · intro _; exact hm.noMark (Or.inl hidle)
-    · intro hs; rcases hs with hs | hs <;> cases hs
+    refine ⟨hm.unpubTask, ?_⟩
+    intro i hi
+    have := hm.unpubMark i hi
+    rcases hg.1 with h | h <;> rw [h] at this <;> cases this
   | stopReserve =>
     simp only [GC.step, stepWith] at h
     split at h <;> try contradiction
     rename_i hres
     injection h with h; subst h
-    have hlen := allItems_length hq
-    have hno := hm.noMark (Or.inr hres)
-    have hall : ∀ k : Nat, (s.popped ++ (s.cells ++ [(Item.marker, false)]).map (·.1))[k]? = some Item.marker →
-        k = s.pushIdx := by
-      intro km hkm
-      simp only [List.map_append, List.map_cons, List.map_nil, ← List.append_assoc] at hkm
-      change (s.allItems ++ [Item.marker])[km]? = _ at hkm
-      rw [getElem?_append_singleton] at hkm
-      split at hkm
-      · exact absurd (List.mem_of_getElem? hkm) hno
-      · split at hkm
-        · omega
-        · cases hkm
-    refine ⟨?_, ?_, ?_, ?_, ?_⟩
+    refine ⟨?_, ?_⟩
     · intro i j e hi
       dsimp only at hi ⊢
       rw [getElem?_append_singleton] at hi
@@ -230,10 +164,6 @@ theorem MInv.step {c : Cfg} {s s' : State} {l : Lbl} (hq : QInv c s) (hm : MInv 
         · have := hq.cellLen
           congr 1; omega
         · cases hi
-    · intro hs; rcases hs with hs | hs <;> cases hs
-    · intro hs; rcases hs with hs | hs <;> cases hs
-    · intro i j hi hj
-      rw [hall i hi, hall j hj]
   | stopPublish =>
     simp only [GC.step, stepWith] at h
     split at h <;> try contradiction
@@ -241,10 +171,7 @@ theorem MInv.step {c : Cfg} {s s' : State} {l : Lbl} (hq : QInv c s) (hm : MInv 
     split at h <;> try contradiction
     rename_i hroom
     injection h with h; subst h
-    have e : s.popped ++ (setPublished s.cells (k0 - s.popIdx)).map (·.1) = s.allItems := by
-      simp [State.allItems, map_fst_setPublished]
-    have ⟨hk1, hk2⟩ := hq.spub k0 hpub
-    refine ⟨?_, ?_, ?_, ?_, ?_⟩
+    refine ⟨?_, ?_⟩
     · intro i j e' hi
       dsimp only at hi ⊢
       rw [getElem?_setPublished] at hi
@@ -272,44 +199,29 @@ theorem MInv.step {c : Cfg} {s s' : State} {l : Lbl} (hq : QInv c s) (hm : MInv 
           injection this with this
           rename_i hne
           exact absurd (by omega) hne
-    · intro hs; rcases hs with hs | hs <;> cases hs
-    · intro _
-      show Item.marker ∈ s.popped ++ (setPublished s.cells (k0 - s.popIdx)).map (·.1)
-      rw [e]
-      simp only [State.allItems, List.mem_append, List.mem_map]
-      right
-      exact ⟨_, List.mem_of_getElem? hk2, rfl⟩
-    · intro i j
-      show (s.popped ++ (setPublished s.cells (k0 - s.popIdx)).map (·.1))[i]? = _ →
-        (s.popped ++ (setPublished s.cells (k0 - s.popIdx)).map (·.1))[j]? = _ → _
-      rw [e]; exact hm.oneMark i j
   | stopJoin =>
     simp only [GC.step, stepWith] at h
     split at h <;> try contradiction
     rename_i hg
     injection h with h; subst h
-    refine ⟨hm.unpubTask, ?_, ?_, ?_, hm.oneMark⟩
-    · intro i hi
-      have := hm.unpubMark i hi
-      rw [hg.1] at this; cases this
-    · intro hs; rcases hs with hs | hs <;> cases hs
-    · intro _; exact hm.markIn (Or.inl hg.1)
+    refine ⟨hm.unpubTask, ?_⟩
+    intro i hi
+    have := hm.unpubMark i hi
+    rw [hg.1] at this; cases this
   | pop n =>
     simp only [GC.step, stepWith] at h
     split at h <;> try contradiction
     · split at h <;> try contradiction
-      rename_i hp
       injection h with h; subst h
-      exact hm.popCells hq hp.1 _
+      exact hm.popCells _ _
     · split at h <;> try contradiction
-      rename_i hp
       injection h with h; subst h
-      exact hm.popCells hq hp _
+      exact hm.popCells _ _
   | _ =>
     simp only [GC.step, stepWith] at h <;> (repeat' split at h) <;>
     first
     | contradiction
-    | (injection h with h; subst h; exact ⟨hm.unpubTask, hm.unpubMark, hm.noMark, hm.markIn, hm.oneMark⟩)
+    | (injection h with h; subst h; exact ⟨hm.unpubTask, hm.unpubMark⟩)
 
 theorem reach_minv {c : Cfg} {s : State} (h : Reach c s) : MInv s := by
   refine Reach.inv (c := c) MInv MInv.init ?_ s h
